@@ -298,7 +298,19 @@ impl<'u> Sem<'u> {
                 }
             }
         }
-        self.globals.get(name).cloned()
+        // namespace-scope variables: unqualified (or partly qualified) names are looked up outward from the namespace
+        // of the running function
+        let mut prefix: Vec<String> = self.ns_stack.last().cloned().unwrap_or_default();
+        loop {
+            let full = if prefix.is_empty() { name.to_string() } else { format!("{}::{}", prefix.join("::"), name) };
+            if let Some(p) = self.globals.get(&full) {
+                return Some(p.clone());
+            }
+            if prefix.is_empty() {
+                return None;
+            }
+            prefix.pop();
+        }
     }
 
     fn enum_value(&mut self, name: &str) -> R<Option<(V, Ty)>> {
@@ -367,6 +379,49 @@ impl<'u> Sem<'u> {
                 } else if seen_default && self.d == Dialect::Msl {
                     return bad(format!("parameter {} of {} has no default argument but follows one that has", p.name, f.name));
                 }
+            }
+        }
+        // one name per scope: parameters of one function, a parameter and a variable of the outermost block, two
+        // variables declared in the same block
+        fn block_names(ss: &[Stm], taken: &mut Vec<String>, fname: &str) -> R<()> {
+            for s in ss {
+                match s {
+                    Stm::Decl(_, ds, _) => {
+                        for d in ds {
+                            if taken.contains(&d.name) {
+                                return bad(format!("redefinition of a name in one scope of {}", fname));
+                            }
+                            taken.push(d.name.clone());
+                        }
+                    }
+                    Stm::Block(b) => block_names(b, &mut Vec::new(), fname)?,
+                    Stm::If(_, a, b) => {
+                        block_names(std::slice::from_ref(a), &mut Vec::new(), fname)?;
+                        if let Some(b) = b {
+                            block_names(std::slice::from_ref(b), &mut Vec::new(), fname)?;
+                        }
+                    }
+                    Stm::For(_, _, _, b) | Stm::While(_, b) | Stm::DoWhile(b, _) => block_names(std::slice::from_ref(b), &mut Vec::new(), fname)?,
+                    Stm::Switch(_, b) => block_names(b, &mut Vec::new(), fname)?,
+                    _ => {}
+                }
+            }
+            Ok(())
+        }
+        let methods = self.u.structs.iter().flat_map(|s| s.methods.iter());
+        for f in self.u.funcs.iter().chain(methods) {
+            let mut taken: Vec<String> = Vec::new();
+            for p in &f.params {
+                if p.name.is_empty() {
+                    continue;
+                }
+                if taken.contains(&p.name) {
+                    return bad(format!("redefinition of a name in one scope of {}", f.name));
+                }
+                taken.push(p.name.clone());
+            }
+            if f.has_body {
+                block_names(&f.body, &mut taken, &f.name)?;
             }
         }
         Ok(())
